@@ -393,10 +393,25 @@ pub fn record_corpus(a: &HashMap<String, String>) -> i32 {
 
 // ------------------------------------------------------------------ C20
 
-fn w8_text(w8: i64) -> String {
-    let neg = w8 < 0;
+/// weight = w8 / 8, spelled in one of the ways a model.def may spell it (`style` picks one)
+fn w8_text(w8: i64, style: usize) -> String {
+    let neg = if w8 < 0 { "-" } else { "" };
     let a = w8.abs();
-    format!("{}{}.{:03}", if neg { "-" } else { "" }, a / 8, (a % 8) * 125)
+    let (int, frac) = (a / 8, (a % 8) * 125);
+    if frac == 0 {
+        match style % 4 {
+            0 => format!("{neg}{int}"),          // 3   -2
+            1 => format!("{neg}{int}."),         // 3.
+            2 => format!("{neg}{int}.0"),
+            _ => format!("{neg}{int}.000"),
+        }
+    } else if int == 0 && style % 3 == 0 {
+        format!("{neg}.{}", format!("{:03}", frac).trim_end_matches('0'))      // .5  -.125
+    } else if style % 2 == 0 {
+        format!("{neg}{int}.{}", format!("{:03}", frac).trim_end_matches('0'))
+    } else {
+        format!("{neg}{int}.{:03}", frac)
+    }
 }
 
 fn expand_tpl(t: &Value, feats: &[String]) -> Option<String> {
@@ -459,7 +474,7 @@ pub fn record_mecab(a: &HashMap<String, String>) -> i32 {
             let l = rng.pick(&ltab).clone();
             let le = expand_tpl(&t["left"][k], &r.1);
             let re = expand_tpl(&t["right"][k], &l.1);
-            let w8 = match rng.below(6) { 0 => 0, 1 => rng.range(-3, 3), _ => rng.range(-4000, 4000) };
+            let w8 = match rng.below(6) { 0 => 0, 1 => rng.range(-3, 3), 2 => 8 * rng.range(-500, 500), _ => rng.range(-4000, 4000) };
             match (le, re) {
                 (Some(le), Some(re)) if rng.chance(4, 5) && r.0 != 0 && l.0 != 0 => lines.push((w8, le, re)),
                 _ => lines.push((w8, format!("miss{}", rng.below(3)), "x".into())),
@@ -484,10 +499,10 @@ pub fn record_mecab(a: &HashMap<String, String>) -> i32 {
         let rtext = tab_text(&rtab, malformed);
         let ltext = tab_text(&ltab, false);
         let mut mtext = String::from("0.5\tU1:unigram-feature\n");
-        for (w8, lt, rt) in &lines {
-            mtext.push_str(&format!("{}\t{}/{}\n", w8_text(*w8), lt, rt));
+        for (k, (w8, lt, rt)) in lines.iter().enumerate() {
+            mtext.push_str(&format!("{}\t{}/{}\n", w8_text(*w8, k + rng.below(4)), lt, rt));
         }
-        mtext.push_str(&format!("{}\tBOS/EOS/{}\n", w8_text(24), lines.first().map_or("x".to_string(), |l| l.2.clone())));
+        mtext.push_str(&format!("{}\tBOS/EOS/{}\n", w8_text(24, 0), lines.first().map_or("x".to_string(), |l| l.2.clone())));
         let r = catch_unwind(AssertUnwindSafe(|| {
             let (mut br, mut bl, mut bc) = (vec![], vec![], vec![]);
             vibrato::mecab::generate_bigram_info(fdef.as_bytes(), rtext.as_bytes(), ltext.as_bytes(), mtext.as_bytes(), factor as f64, &mut br, &mut bl, &mut bc)
